@@ -73,6 +73,21 @@ type caseHead struct {
 	Profile string `json:"profile"`
 	Data    string `json:"data"`
 	Fetch   bool   `json:"fetch"`
+	// report configuration of the call, when the case fixes one (c06): schema IRIs and whether the date is included
+	RC *caseRC `json:"rc,omitempty"`
+}
+
+type caseRC struct {
+	Report      string `json:"report"`
+	Lexical     string `json:"lexical"`
+	IncludeDate bool   `json:"includeDate"`
+}
+
+func rcOf(h caseHead) config.ReportConfiguration {
+	if h.RC == nil {
+		return defaultRC()
+	}
+	return config.ReportConfiguration{IncludeReportCreationTime: h.RC.IncludeDate, ReportSchemaIri: h.RC.Report, LexicalSchemaIri: h.RC.Lexical}
 }
 
 func sortedKeys(m map[string]bool) []string {
@@ -199,11 +214,18 @@ func runImpl(in io.Reader, out io.Writer) {
 	sc.Buffer(make([]byte, 1<<20), 1<<28)
 	w := bufio.NewWriter(out)
 	defer w.Flush()
+	nLines := 0
 	for sc.Scan() {
 		line := sc.Bytes()
 		if len(line) == 0 {
 			continue
 		}
+		// the process has a history: now and then it compiles an unrelated profile that binds built-in aliases (and `ex`) to
+		// namespaces of its own; no answer below may depend on that
+		if nLines%5 == 2 {
+			interfere(nLines / 5)
+		}
+		nLines++
 		var h caseHead
 		var res map[string]any
 		if err := json.Unmarshal(line, &h); err != nil {
@@ -227,6 +249,16 @@ func runImpl(in io.Reader, out io.Writer) {
 		w.Flush()
 	}
 	_ = os.Stdout
+}
+
+var interferers = []string{
+	"profile: other tenant\nprefixes:\n  core: http://example.org/inventory/core#\n  apiContract: http://example.org/inventory/api#\n  ex: http://example.org/other#\nviolation:\n  - o\nvalidations:\n  o:\n    targetClass: apiContract.EndPoint\n    message: o\n    propertyConstraints:\n      core.name / ex.p0:\n        minCount: 1\n",
+	"profile: other tenant 2\nprefixes:\n  shacl: http://example.org/s#\n  doc: http://example.org/d#\n  apiExt: http://example.org/x#\n  xsd: http://example.org/xsd#\n  zz: http://ex.org/v#\nwarning:\n  - o\nvalidations:\n  o:\n    targetClass: doc.Unit\n    message: o\n    propertyConstraints:\n      shacl.name:\n        in: [a]\n      zz.p1:\n        datatype: xsd.string\n",
+}
+
+func interfere(k int) {
+	defer func() { recover() }()
+	pkg.CompileProfile(interferers[k%len(interferers)], false, nil)
 }
 
 // ---------------------------------------------------------------- pipeline runs with an event channel
